@@ -17,8 +17,7 @@ from mutants import MUTANTS  # noqa: E402
 REVERTS = [
     ("C01_revertfix_F1", "never select an already selected"), ("C06_revertfix_F2", "VoronoiFPS accepts n_to_select=None"),
     ("C08_revertfix_F3", "warm-started CUR keeps"), ("C05_revertfix_F4", "uses the train-train kernel"),
-    ("C05_revertfix_F5", "centers the test-test kernel"), ("C10_revertfix_F6", "truncates the final solution"),
-    ("C10_revertfix_F7", "rank cutoff relative"), ("C10_revertfix_F8", "predictions and targets to the scorer"),
+    ("C05_revertfix_F5", "centers the test-test kernel"), ("C10_revertfix_F7", "rank cutoff relative"), ("C10_revertfix_F8", "predictions and targets to the scorer"),
     ("C13_revertfix_F9", "reconstruction distortion works"), ("C09_revertfix_F10", "does not scale the cutoff array"),
     ("C09_revertfix_F11", "does not normalise the weights"), ("C09_revertfix_F12", "refitted without y after"),
     ("C09_revertfix_F13", "refitted on a kernel of a"), ("C17_revertfix_F14", "effdim handles singular"),
